@@ -472,7 +472,8 @@ func runC04(c *Case) {
 		}
 		newHostile := func() *hostile {
 			k := randomKind(r, 65)
-			h := &hostile{p: w.AddPuppet(sim.PuppetSpec{Kind: k, QSize: pick(r, []int{0, 0, 2, 8})}), state: "prehello"}
+			// (rawsocket: the server side sometimes has a configured receive limit below the protocol's maximum)
+			h := &hostile{p: w.AddPuppet(sim.PuppetSpec{Kind: k, QSize: pick(r, []int{0, 0, 2, 8}), RecvLimit: pick(r, []int{0, 0, 1024, 4096})}), state: "prehello"}
 			setups = append(setups, fmt.Sprintf("H%d %s", h.p.Idx, k))
 			switch r.IntN(6) {
 			case 0: // stays before HELLO
@@ -559,12 +560,19 @@ func runC04(c *Case) {
 					if chance(r, 30) {
 						po["disclose_me"] = true
 					}
+					if chance(r, 50) {
+						po = wamp.Dict{} // plain options
+					}
+					if chance(r, 60) {
+						po["acknowledge"] = true // the broker's PUBLISHED or ERROR then goes to the realm's meta peer
+					}
+					ttopic := pick(r, []string{"probe.topic", "probe.topic", "a..b", "", "wamp.x"})
 					a.p.Send(&wamp.Call{Request: a.nextReq(), Options: wamp.Dict{}, Procedure: "wamp.session.add_testament",
-						Arguments: wamp.List{"probe.topic", wamp.List{"testament"}, wamp.Dict{}}, ArgumentsKw: wamp.Dict{"publish_options": po, "scope": pick(r, []string{"destroyed", "detached"})}})
+						Arguments: wamp.List{ttopic, wamp.List{"testament"}, wamp.Dict{}}, ArgumentsKw: wamp.Dict{"publish_options": po, "scope": pick(r, []string{"destroyed", "detached"})}})
 					w.Wait()
 					a.p.Drop()
 					a.state = "gone"
-					desc = "recipe[attached] testament with payload passthru publish options, owner drops"
+					desc = "recipe[attached] testament with passthru/acknowledge publish options (valid or invalid topic), owner drops"
 				case rec == 10 && len(at) >= 2: // a registration with an unknown match policy is emptied and registered again, then its holder leaves
 					a, b := at[0], at[1]
 					proc := wamp.URI(pick(r, []string{"r.match", "a.b", "r.two"}))
@@ -670,11 +678,18 @@ func runC04(c *Case) {
 						continue
 					}
 					a := pick(r, raws)
-					typ := byte(pick(r, []int{1, 2, 3, 4, 5, 6, 7, 8, 0x10, 0xff, 0x81}))
+					typ := byte(pick(r, []int{0, 0, 1, 2, 3, 4, 5, 6, 7, 8, 0x10, 0xff, 0x81}))
 					n := pick(r, []int{0, 1, 5, 300})
 					frame := sim.EncodeFrame(typ, make([]byte, n))
 					if chance(r, 20) {
 						frame[1], frame[2], frame[3] = 0xff, 0xff, 0xff // declared length 16M-1 with a short body
+					} else if chance(r, 40) {
+						// a declared length just above a configured receive limit (1 KiB / 4 KiB), with or without a body
+						l := pick(r, []int{1025, 2048, 4097, 70000})
+						frame[1], frame[2], frame[3] = byte(l>>16), byte(l>>8), byte(l)
+						if chance(r, 50) {
+							frame = append(frame[:4], make([]byte, l)...)
+						}
 					}
 					sendRawTo(a, frame)
 					desc = fmt.Sprintf("recipe[%s] rawsocket frame type=%d len=%d", a.state, typ, n)
